@@ -27,11 +27,20 @@ def norm(path, root):
     p = re.sub(r"\d{6,}", "<n>", p)
     return p
 
+def freshen(root):
+    """cmd/go and garble refresh the mtime of every cache entry they use that is older than an hour. Those utimens calls would be
+    counted as mutations in the first supervised run only (they refresh the inodes shared by the hard-linked clones), shifting the
+    numbering of every later kill run; with all entries fresh there are none in any run."""
+    for r, _, fs in os.walk(root):
+        for f in fs:
+            try: os.utime(os.path.join(r, f))
+            except OSError: pass
 def scenario(name, prep, tmp_on_shm, select):
     """prep(root): mutate the start state; select(ops): indices (1-based) of the boundaries to kill at."""
     S0 = os.path.join(g.root, "S0-" + name)
     compose(S0, [base])
     prep(S0)
+    freshen(S0)
     src = os.path.join(g.root, "src-" + name)
     write_module(src, SRC, modpath=MODP)
     def env_for(root, tag):
@@ -171,7 +180,7 @@ def scenario_debugdir():
     run under the supervisor, and it is killed at every top-level boundary of the emptying phase (plus inside a sub-tree);
     the same build is then run again."""
     name = "D-owned-debugdir"
-    S0 = os.path.join(g.root, "S0-" + name); compose(S0, [base])
+    S0 = os.path.join(g.root, "S0-" + name); compose(S0, [base]); freshen(S0)
     src = os.path.join(g.root, "src-" + name); write_module(src, SRC, modpath=MODP)
     DD0 = os.path.join(g.root, "dd0")
     shm = "/dev/shm/verif-c18-%d-dd" % os.getpid()
